@@ -139,7 +139,15 @@ class MapPacket(Packet):
     def write_fields(self, packet_buffer):
         VarInt.send(self.map_id, packet_buffer)
         Byte.send(self.scale, packet_buffer)
-        if self.context.protocol_later_eq(107):
+
+        # The following fields mirror the order in which 'read' expects them:
+        if self.context.protocol_in_range(107, PRE | 6):
+            Boolean.send(self.is_tracking_position, packet_buffer)
+
+        if self.context.protocol_later_eq(452):
+            Boolean.send(self.is_locked, packet_buffer)
+
+        if self.context.protocol_later_eq(PRE | 6):
             Boolean.send(self.is_tracking_position, packet_buffer)
 
         VarInt.send(len(self.icons), packet_buffer)
@@ -162,6 +170,6 @@ class MapPacket(Packet):
         UnsignedByte.send(self.width, packet_buffer)
         if self.width:
             UnsignedByte.send(self.height, packet_buffer)
-            UnsignedByte.send(self.offset[0], packet_buffer)  # x
-            UnsignedByte.send(self.offset[1], packet_buffer)  # z
+            Byte.send(self.offset[0], packet_buffer)  # x
+            Byte.send(self.offset[1], packet_buffer)  # z
             VarIntPrefixedByteArray.send(self.pixels, packet_buffer)
